@@ -46,7 +46,7 @@ def make_config(seed, tier="quick"):
         stim_classes=r.sample(["frame", "frame", "frame", "send", "app_disconnect", "peer_close"], r.randint(1, 6)),
         frame_types=r.sample(FRAME_TYPES, r.randint(1, len(FRAME_TYPES))),
         defects=r.sample(DEFECTS, r.randint(1, len(DEFECTS))),
-        p_overlap=r.choice([0.0, 0.0, 0.3]),
+        p_overlap=r.choice([0.0, 0.0, 0.3, 1.0]),
         p_pause=r.choice([0.0, 0.0, 0.3, 0.6]),
         p_hook=r.choice([0.0, 0.0, 0.3]),
         hook_names=r.sample(["on_state_change", "on_message", "on_logon", "on_logout", "on_disconnect", "on_connect"],
@@ -140,6 +140,7 @@ class GateSim(PeerSim):
                 self.flag("disconnect-reported-twice", f"C11/on_disconnect-twice/{self.ctx()}",
                           f"on_disconnect called {e['n_on_disconnect']} times for one connection (epoch {e['n']})")
             e["disconnected"] = True
+            e["out_at_disconnect"] = self.live().next_num_out
             return
         if kind == "on_message":
             m = args[0]
@@ -233,7 +234,7 @@ class GateSim(PeerSim):
         if self.n_stim < cfg["n_stim"]:
             if self.cur is None and self.quiet():
                 out.append((("stim",), 3.0))
-            elif self.cur is not None and cfg["p_overlap"] > 0 and not self.cur.get("overlap"):
+            elif self.cur is not None and cfg["p_overlap"] > 0 and self.cur.get("n_overlap", 0) < 3:
                 out.append((("overlap",), cfg["p_overlap"]))
         return out
 
@@ -287,6 +288,7 @@ class GateSim(PeerSim):
         _, cls, x, y, z, w = a
         if a[0] == "overlap":
             self.cur["overlap"] = True
+            self.cur["n_overlap"] = self.cur.get("n_overlap", 0) + 1
             self.fault("overlapping_stimulus_" + cls)
             self.do_stim(cls, x, y, z, w, None)
             return
@@ -424,6 +426,11 @@ class GateSim(PeerSim):
         return now - self.quiet_since >= 1.1
 
     def boundary_check(self):
+        e = self.ep
+        if e["disconnected"] and self.live().next_num_out != e.get("out_at_disconnect"):
+            raise Violation("send-after-disconnect", f"C11/number-consumed-after-disconnect/{self.ctx()}",
+                            f"next outbound number went {e.get('out_at_disconnect')} -> {self.live().next_num_out} after "
+                            "on_disconnect of the connection: a send was not refused")
         if not self.prefix_done:
             self.drive_prefix()
         if self.cur is not None and self.window_over():
